@@ -13,6 +13,7 @@ from . import common
 
 SPEC = {
     "level": "exploration",
+    "level_text": 'Exploration: norm = serialize.canonicalize.parse is executed on base strings and harness respellings whose equivalence is re-validated by the reference reader and the isomorphism oracle; all spellings of one molecule must normalise to one string, and norm must be idempotent.',
     "technique": "offline trace checker over norm(mol_id, spelling_id) events of the real parse->canonicalize->serialize pipeline; respellings validated by reference reader + isomorphism oracle",
     "rule": ("base strings: canonical strings produced by the pipeline for M2/M3/M4/M5 molecules and hand-style random sentences; each respelled k times by tuple permutation, "
              "endpoint swap, tuple repetition, attribute-block permutation, block splitting, key-order swap, renumbering within element blocks, empty third section; "
